@@ -434,7 +434,7 @@ pub fn gen_case(rng: &mut Rng, opt: &str, _thorough: bool) -> String {
         *rng.pick(&fams)
     };
     let fmt: &'static str = *rng.pick(&["cnf", "cnf", "wcnf", "gcnf"]);
-    let mut case = Case { fmt: fmt.into(), ty: ty.into(), cfg, k: None, ls: false, data: vec![], expect: None, tok: None };
+    let mut case = Case { fmt: fmt.into(), ty: ty.into(), cfg, k: None, ls: false, data: vec![], expect: None, tok: None, ns: None };
     match family {
         "layout" => {
             let doc = gen_doc(rng, fmt, tmax, cfg);
@@ -543,6 +543,7 @@ pub fn gen_case(rng: &mut Rng, opt: &str, _thorough: bool) -> String {
                 case.data = b;
             }
         }
+        "scale" => return scale_case(rng, _thorough),
         _ => panic!("unknown family {}", family),
     }
     case.line()
@@ -556,6 +557,761 @@ pub fn fault_sweep(rng: &mut Rng) -> Vec<String> {
     let doc = gen_doc(rng, fmt, tmax, cfg);
     let r = render(rng, &doc, false);
     (0..=r.bytes.len())
-        .map(|k| Case { fmt: fmt.into(), ty: ty.into(), cfg, k: Some(k), ls: false, data: r.bytes.clone(), expect: None, tok: None }.line())
+        .map(|k| Case { fmt: fmt.into(), ty: ty.into(), cfg, k: Some(k), ls: false, data: r.bytes.clone(), expect: None, tok: None, ns: None }.line())
         .collect()
 }
+
+// ------------------------------------------------------------------ scale family (`--opt scale`)
+//
+// Every size-like dimension of the DIMACS / solver-log input is taken beyond 2^20: runs of blank
+// lines / comment lines / blanks at every place the grammar allows them (before the header, after
+// it, between clauses, inside an open clause, after a weight / group, after the last clause),
+// long comment lines, wide clauses, many clauses, clauses spread over many lines, long digit runs
+// (leading zeros, overflowing numerals) in every numeric field, header counts at the type limits,
+// clause starts at a fixed stride.  Sizes come from `common::scale_sizes` (around powers of two
+// and around every integer constant of the current source).  Each layout is used in five modes:
+// valid (`x=` expected value), syntax error right after / one statement after the scaled element
+// (`t=` exact token position), I/O fault at an offset inside / around it (`k=`), one line per read
+// (`ls=1`).  Documents with more items than the model's per-item fuel computation can take carry
+// `big=1` (implementation-side oracles only).
+use std::sync::atomic::{AtomicUsize, Ordering};
+use std::sync::OnceLock;
+
+#[derive(Clone, Copy, PartialEq, Debug)]
+enum Mode { V, E1, E2, F, Ls }
+
+/// Data-field builder that tracks offset / line / column without expanding the runs.
+struct Sb { segs: Vec<String>, pend: Vec<u8>, line: usize, col: usize, off: usize }
+
+impl Sb {
+    fn new() -> Sb { Sb { segs: vec![], pend: vec![], line: 1, col: 1, off: 0 } }
+    fn track(&mut self, b: &[u8]) {
+        for &c in b {
+            self.off += 1;
+            if c == b'\n' { self.line += 1; self.col = 1; } else { self.col += 1; }
+        }
+    }
+    fn lit(&mut self, b: &[u8]) { self.pend.extend_from_slice(b); self.track(b); }
+    fn flush(&mut self) {
+        if !self.pend.is_empty() { self.segs.push(hex(&self.pend)); self.pend.clear(); }
+    }
+    fn rep(&mut self, count: usize, unit: &[u8]) {
+        if count == 0 || unit.is_empty() { return; }
+        if count * unit.len() < 48 {
+            for _ in 0..count { self.lit(unit); }
+            return;
+        }
+        self.flush();
+        self.segs.push(format!("r{}.{}", count, hex(unit)));
+        let nl = unit.iter().filter(|&&c| c == b'\n').count();
+        self.off += count * unit.len();
+        if nl == 0 {
+            self.col += count * unit.len();
+        } else {
+            self.line += count * nl;
+            self.col = unit.len() - unit.iter().rposition(|&c| c == b'\n').unwrap();
+        }
+    }
+    fn nums(&mut self, count: usize, start: usize, step: usize, pre: &[u8], suf: &[u8]) {
+        if count == 0 { return; }
+        self.flush();
+        let seg = format!("n{}.{}.{}.{}.{}", count, start, step, hex(pre), hex(suf));
+        let bytes = data_field(&seg);
+        self.track(&bytes);
+        self.segs.push(seg);
+    }
+    fn spec(&mut self) -> String {
+        self.flush();
+        if self.segs.is_empty() { "-".into() } else { self.segs.join("+") }
+    }
+}
+
+/// A scale document under construction: text, expected items, the syntax error to inject.
+struct Sd {
+    sb: Sb,
+    fmt: &'static str,
+    hdr: String,
+    items: Vec<String>,
+    /// token to put in place of a good one at an injection point after the scaled element
+    bad: Option<Vec<u8>>,
+    skip: usize,
+    tail: Vec<u8>,
+    armed: bool,
+    tok: Option<(usize, usize, usize)>,
+    dead: bool,
+    scaled: (usize, usize),
+    eol: &'static [u8],
+}
+
+impl Sd {
+    fn lit(&mut self, b: &[u8]) { if !self.dead { self.sb.lit(b); } }
+    fn nl(&mut self) { let e = self.eol; self.lit(e); }
+    fn rep(&mut self, n: usize, unit: &[u8]) { if !self.dead { self.sb.rep(n, unit); } }
+    /// the scaled element: a run
+    fn srep(&mut self, n: usize, unit: &[u8]) {
+        if self.dead { return; }
+        let s = self.sb.off;
+        self.sb.rep(n, unit);
+        self.scaled = (s, self.sb.off);
+        self.armed = true;
+    }
+    /// the scaled element: a sequence of numerals
+    fn snums(&mut self, n: usize, start: usize, step: usize, pre: &[u8], suf: &[u8]) {
+        if self.dead { return; }
+        let s = self.sb.off;
+        self.sb.nums(n, start, step, pre, suf);
+        self.scaled = (s, self.sb.off);
+        self.armed = true;
+    }
+    fn item(&mut self, s: String) { if !self.dead { self.items.push(s); } }
+    /// A token position (possibly the empty token at the end of a line / of the input): the place
+    /// where a syntax error can be injected once the scaled element has been written.
+    fn tok(&mut self, good: &[u8]) {
+        if self.dead { return; }
+        if self.armed {
+            if let Some(b) = self.bad.clone() {
+                if self.skip == 0 {
+                    self.tok = Some((self.sb.line, self.sb.col, b.len()));
+                    self.sb.lit(&b);
+                    if !b.is_empty() { let t = self.tail.clone(); self.sb.lit(&t); }
+                    self.dead = true;
+                    self.bad = None;
+                    return;
+                }
+                self.skip -= 1;
+            }
+        }
+        self.sb.lit(good);
+    }
+    /// The whole numeral token is the error (overflowing digit run): `pre` ++ run ++ `suf`.
+    fn bad_run(&mut self, pre: &[u8], n: usize, unit: &[u8], suf: &[u8]) {
+        if self.dead { return; }
+        let (l, c, s) = (self.sb.line, self.sb.col, self.sb.off);
+        self.sb.lit(pre);
+        let s0 = self.sb.off;
+        self.sb.rep(n, unit);
+        self.scaled = (s0, self.sb.off);
+        self.sb.lit(suf);
+        self.tok = Some((l, c, self.sb.off - s));
+        let t = self.tail.clone();
+        self.sb.lit(&t);
+        self.dead = true;
+        self.bad = None;
+    }
+    fn tag_tok(&self, tag: u64) -> Option<Vec<u8>> {
+        match self.fmt {
+            "wcnf" => Some(tag.to_string().into_bytes()),
+            "gcnf" => Some(format!("{{{}}}", tag).into_bytes()),
+            _ => None,
+        }
+    }
+    fn tag_val(&self, tag: u64) -> u64 { if self.fmt == "cnf" { 0 } else { tag } }
+    /// Tokens of a clause: [tag] lits… 0
+    fn clause_toks(&self, tag: u64, lits: &[i64]) -> Vec<Vec<u8>> {
+        let mut v: Vec<Vec<u8>> = vec![];
+        if let Some(t) = self.tag_tok(tag) { v.push(t); }
+        v.extend(lits.iter().map(|l| l.to_string().into_bytes()));
+        v.push(b"0".to_vec());
+        v
+    }
+    fn clause_item(&self, tag: u64, lits: &[i64]) -> String {
+        format!("C:{}:{}", self.tag_val(tag), if lits.is_empty() { "-".into() } else { lits.iter().map(|x| x.to_string()).collect::<Vec<_>>().join(",") })
+    }
+    /// A clause on one line; `gap = Some((i, n, unit))` puts the scaled blank run after token `i`.
+    fn clause(&mut self, tag: u64, lits: &[i64], gap: Option<(usize, usize, &[u8])>) {
+        let toks = self.clause_toks(tag, lits);
+        for (i, t) in toks.iter().enumerate() {
+            self.tok(t);
+            match gap {
+                Some((g, n, unit)) if g == i => {
+                    self.srep(n, unit);
+                    if i + 1 == toks.len() { self.tok(b""); }
+                }
+                _ => { if i + 1 < toks.len() { self.lit(b" "); } }
+            }
+        }
+        self.nl();
+        let it = self.clause_item(tag, lits);
+        self.item(it);
+    }
+    /// Header line with the given numeric fields; same `gap` convention (token 0 = `p`, 1 = format).
+    fn header(&mut self, fields: &[u64], gap: Option<(usize, usize, &[u8])>) {
+        let mut toks: Vec<Vec<u8>> = vec![b"p".to_vec(), self.fmt.as_bytes().to_vec()];
+        toks.extend(fields.iter().map(|f| f.to_string().into_bytes()));
+        for (i, t) in toks.iter().enumerate() {
+            self.tok(t);
+            match gap {
+                Some((g, n, unit)) if g == i => {
+                    self.srep(n, unit);
+                    if i + 1 == toks.len() { self.tok(b""); }
+                }
+                _ => { if i + 1 < toks.len() { self.lit(b" "); } }
+            }
+        }
+        self.nl();
+        if !self.dead {
+            self.hdr = format!("H:{}", fields.iter().map(|f| f.to_string()).collect::<Vec<_>>().join(":"));
+        }
+    }
+}
+
+/// What a scale dimension is: name, smallest / largest size exponent (quick, thorough), the item
+/// count above which the model is skipped (`big=1`), the modes it is used in (first = the mode of
+/// the largest case).
+struct Dim {
+    name: &'static str,
+    /// size exponents: smallest, largest in the quick tier, largest in the thorough tier
+    lo: u32, hi_q: u32, hi_t: u32,
+    /// item count above which the model is skipped (`big=1`), per tier
+    thr_q: usize, thr_t: usize,
+    /// relative cost of one unit in the model (medium-size cases are scaled down by it)
+    w: usize,
+    modes: &'static [Mode],
+}
+
+impl Dim {
+    fn thr(&self, thorough: bool) -> usize { if thorough { self.thr_t } else { self.thr_q } }
+    fn hi(&self, thorough: bool) -> u32 { if thorough { self.hi_t } else { self.hi_q } }
+}
+
+const NO_THR: usize = usize::MAX;
+use Mode::*;
+const fn dim(name: &'static str, w: usize, modes: &'static [Mode]) -> Dim {
+    Dim { name, lo: 10, hi_q: 20, hi_t: 21, thr_q: NO_THR, thr_t: NO_THR, w, modes }
+}
+const DIMS: &[Dim] = &[
+    dim("lines-open", 1, &[V, E1, F, Ls, E2]),
+    dim("lines-tag", 1, &[E2, V, F, Ls, E1]),
+    dim("lines-pre", 1, &[E2, V, F, Ls, E1]),
+    dim("lines-mid", 1, &[Ls, E2, V, F, E1]),
+    dim("lines-end", 1, &[V, E1, F, Ls]),
+    dim("clines-top", 1, &[E2, V, F, Ls, E1]),
+    dim("clines-open", 1, &[E1, V, F, Ls, E2]),
+    dim("ws-lead", 1, &[E1, V, F, E2]),
+    dim("ws-hdr", 1, &[E1, V, F, E2]),
+    dim("ws-lits", 1, &[E2, E1, V, F]),
+    dim("ws-trail", 1, &[E1, V, F, E2]),
+    dim("cmt-long", 1, &[E2, V, F, E1]),
+    dim("wide", 8, &[V, E1, F, E2]),
+    Dim { name: "wide-lines", lo: 8, hi_q: 18, hi_t: 21, thr_q: 2100, thr_t: 8300, w: 1, modes: &[V, E1, F, Ls, E2] },
+    Dim { name: "many", lo: 8, hi_q: 20, hi_t: 21, thr_q: 2100, thr_t: 8300, w: 1, modes: &[V, E1, F, Ls, E2] },
+    Dim { name: "stride", lo: 10, hi_q: 16, hi_t: 16, thr_q: NO_THR, thr_t: NO_THR, w: 16, modes: &[V, E1, F] },
+    dim("zeros", 4, &[V, E1, F, E2]),
+    Dim { name: "digits-bad", lo: 10, hi_q: 19, hi_t: 21, thr_q: NO_THR, thr_t: NO_THR, w: 4, modes: &[E1, F] },
+    dim("log-clines", 2, &[E1, V, F, Ls]),
+    dim("log-cmt-long", 1, &[V, E1, F]),
+    Dim { name: "log-wide", lo: 10, hi_q: 18, hi_t: 21, thr_q: NO_THR, thr_t: NO_THR, w: 8, modes: &[V, E1, F] },
+    Dim { name: "log-vlines", lo: 8, hi_q: 18, hi_t: 21, thr_q: 2100, thr_t: 4200, w: 1, modes: &[V, E1, F, Ls] },
+    Dim { name: "log-skip-lines", lo: 8, hi_q: 20, hi_t: 21, thr_q: 2100, thr_t: 4200, w: 1, modes: &[V, E1, F, Ls] },
+    dim("log-skip-long", 1, &[V, E1, F]),
+    dim("log-ws", 1, &[E1, V, F]),
+    Dim { name: "log-zeros", lo: 10, hi_q: 17, hi_t: 21, thr_q: NO_THR, thr_t: NO_THR, w: 4, modes: &[V, E1, F] },
+];
+
+/// The order in which (dimension, size, mode) combinations are generated:
+///  A.  every dimension at its largest size (and, where the model is skipped above a threshold,
+///      at the largest model-checked size), in its first mode;
+///  B.  every dimension at a medium size in each of its other modes;
+///  C.  every dimension at every size derived from a source constant `c` (modes rotate):
+///      first c-1, c, c+1, then c+8, c+9, 2c, 2c+1, then 3(c+1), 5(c+1), 4c+4, each group in a
+///      fixed pseudo-random order;
+///  P.  every dimension at every remaining size of `scale_sizes` (around the powers of two);
+///  then (index beyond the plan) random dimension / size / mode.
+/// `--n` cuts this list: the quick tier reaches into C, the thorough tier goes through P.
+/// Largest-size cases whose native stack use could grow with the run (everything inside an
+/// open clause): generated last (`--n` is read from the command line), so that a case that
+/// kills the process does not hide the others from tools that pipe all cases to one `vh run`.
+const DEEP: &[&str] = &["lines-open", "lines-tag", "clines-open", "wide-lines"];
+/// Largest-size cases in fault mode (I/O error beyond 1 MiB), in addition to the first modes.
+const FAULT_MAX: &[&str] = &["ws-lits", "cmt-long", "log-cmt-long"];
+
+struct Plan { main: Vec<(usize, usize, Mode)>, deep: Vec<(usize, usize, Mode)>, a_len: usize }
+
+fn scale_plan(thorough: bool) -> &'static Plan {
+    static Q: OnceLock<Plan> = OnceLock::new();
+    static T: OnceLock<Plan> = OnceLock::new();
+    (if thorough { &T } else { &Q }).get_or_init(|| {
+        let mut plan: Vec<(usize, usize, Mode)> = vec![];
+        let mut deep: Vec<(usize, usize, Mode)> = vec![];
+        let sizes: Vec<Vec<usize>> = DIMS.iter().map(|d| scale_sizes(d.lo, d.hi(thorough))).collect();
+        for (i, d) in DIMS.iter().enumerate() {
+            let to = if DEEP.contains(&d.name) { &mut deep } else { &mut plan };
+            to.push((i, *sizes[i].last().unwrap(), d.modes[0]));
+            if d.thr(thorough) != NO_THR {
+                if let Some(s) = sizes[i].iter().rev().find(|&&s| s <= d.thr(thorough)) { to.push((i, *s, d.modes[0])); }
+            }
+        }
+        for (i, d) in DIMS.iter().enumerate() {
+            if FAULT_MAX.contains(&d.name) { plan.push((i, *sizes[i].last().unwrap() - 1, F)); }
+        }
+        let a_len = plan.len();
+        for (i, d) in DIMS.iter().enumerate() {
+            let cap = d.thr(thorough).min((1 << if thorough { 18 } else { 15 }) / d.w);
+            let mid: Vec<usize> = sizes[i].iter().copied().filter(|&s| s <= cap && s >= cap / 4).collect();
+            for (j, m) in d.modes.iter().enumerate().skip(1) {
+                if !mid.is_empty() { plan.push((i, mid[(j * 7 + i) % mid.len()], *m)); }
+            }
+        }
+        let mut seen: std::collections::HashSet<(usize, usize)> = plan.iter().chain(deep.iter()).map(|p| (p.0, p.1)).collect();
+        let mut r = Rng::new(0x5ca1e);
+        let mut shuffle_in = |plan: &mut Vec<(usize, usize, Mode)>, mut c: Vec<(usize, usize, Mode)>| {
+            for i in (1..c.len()).rev() { let j = r.below(i as u64 + 1) as usize; c.swap(i, j); }
+            plan.extend(c);
+        };
+        let consts = source_consts();
+        for tier in 0..3 {
+            let mut c = vec![];
+            for (i, d) in DIMS.iter().enumerate() {
+                let (lo, hi) = (1usize << d.lo, (1usize << d.hi(thorough)) + 64);
+                let mut j = 0;
+                for &k in consts.iter().filter(|&&k| k >= lo as u64 && k <= hi as u64) {
+                    let k = k as usize;
+                    let derived: Vec<usize> = match tier { 0 => vec![k - 1, k, k + 1], 1 => vec![k + 8, k + 9, 2 * k, 2 * k + 1], _ => vec![3 * (k + 1), 5 * (k + 1), 4 * k + 4] };
+                    for s in derived {
+                        if s >= lo && s <= hi && seen.insert((i, s)) {
+                            c.push((i, s, d.modes[(i + j + tier) % d.modes.len()]));
+                            j += 1;
+                        }
+                    }
+                }
+            }
+            shuffle_in(&mut plan, c);
+        }
+        let mut c = vec![];
+        for (i, d) in DIMS.iter().enumerate() {
+            for (j, &s) in sizes[i].iter().enumerate() {
+                if seen.insert((i, s)) { c.push((i, s, d.modes[(i + j) % d.modes.len()])); }
+            }
+        }
+        shuffle_in(&mut plan, c);
+        Plan { main: plan, deep, a_len }
+    })
+}
+
+fn cli_n() -> Option<usize> {
+    let a: Vec<String> = std::env::args().collect();
+    a.iter().position(|x| x == "--n").and_then(|i| a.get(i + 1)).and_then(|s| s.parse().ok())
+}
+
+static SCALE_IDX: AtomicUsize = AtomicUsize::new(0);
+
+fn pick_ty(rng: &mut Rng, need: i64) -> (&'static str, i64) {
+    let ok: Vec<(&str, i64)> = TYPES.iter().copied().filter(|t| t.1 >= need).collect();
+    *rng.pick(&ok)
+}
+
+const LINE_UNITS: &[&[u8]] = &[b"\n", b"\n", b"\r\n", b" \n", b"\t \n", b"c\n", b"\nc x\n", b"\n\n\nc\n"];
+const CLINE_UNITS: &[&[u8]] = &[b"c\n", b"c\n", b"c x\n", b"c\r\n", b"c 1 0\n", b"cc\n", b"c\n \n"];
+const WS_UNITS: &[&[u8]] = &[b" ", b" ", b"\t", b" \t", b"\t  "];
+const FILL_UNITS: &[&[u8]] = &[b" ", b"x", b"\t", b"c", b"0 ", b"\r", b"\xc3\xa9", b"\xff", b"p cnf "];
+
+/// One scale case line.
+pub fn scale_case(rng: &mut Rng, thorough: bool) -> String {
+    let idx = SCALE_IDX.fetch_add(1, Ordering::Relaxed);
+    let plan = scale_plan(thorough);
+    let nd = plan.deep.len();
+    // the deep cases take the last `nd` indices of the run (right after the other largest-size
+    // cases if the number of cases is unknown or too small)
+    let first_deep = match cli_n() { Some(t) if t >= plan.a_len + nd => t - nd, _ => plan.a_len };
+    let first_deep = first_deep.max(plan.a_len);
+    let is_deep = idx >= first_deep && idx < first_deep + nd;
+    let main_idx = if idx < first_deep { idx } else { idx - nd };
+    let slot: Option<(usize, usize, Mode)> = if is_deep { Some(plan.deep[idx - first_deep]) } else { plan.main.get(main_idx).copied() };
+    // the largest-size cases use the plainest units (cheapest per unit)
+    let at_max = is_deep || main_idx < plan.a_len;
+    let (di, n, mode) = if let Some(s) = slot {
+        s
+    } else {
+        let di = rng.below(DIMS.len() as u64) as usize;
+        let d = &DIMS[di];
+        // sizes: a power-of-two class first (so that small and large sizes are equally likely)
+        let hi = d.hi(thorough);
+        let k = rng.range(d.lo as u64, hi as u64) as u32;
+        let around = scale_sizes(k.max(d.lo + 1) - 1, k);
+        let n = if rng.chance(1, 4) { rng.range(1 << d.lo, 1 << k) as usize } else { *rng.pick(&around) };
+        // keep the random tail cheap: the big sizes are the planned part
+        let n = if !thorough && n > (1 << 18) && rng.chance(3, 4) { n >> 3 } else { n };
+        (di, n.max(1), *rng.pick(d.modes))
+    };
+    build_scale(rng, di, n, mode, at_max, thorough)
+}
+
+fn build_scale(rng: &mut Rng, di: usize, n: usize, mode: Mode, plain_units: bool, thorough: bool) -> String {
+    let dim = &DIMS[di];
+    let name = dim.name;
+    let is_log = name.starts_with("log-");
+    let fmt: &'static str = if is_log {
+        "log"
+    } else if name == "lines-tag" {
+        *rng.pick(&["wcnf", "gcnf"])
+    } else {
+        *rng.pick(&["cnf", "cnf", "wcnf", "gcnf"])
+    };
+    let need: i64 = match name {
+        "wide" | "wide-lines" | "many" | "log-wide" | "log-vlines" => n as i64 + 8,
+        _ => 3,
+    };
+    // sequences of distinct numerals need a type that holds them; repeated ones fit every type
+    let distinct = rng.chance(1, 2) && need <= i32::MAX as i64 && !plain_units;
+    let (ty, tmax) = if distinct { pick_ty(rng, need) } else { *rng.pick(TYPES) };
+    let distinct = distinct && tmax >= need;
+    let mut cfg = rng.chance(1, 3);
+    let bad: Option<Vec<u8>> = match mode {
+        E1 | E2 => Some(match rng.below(7) {
+            0 => b"x".to_vec(),
+            1 => b"1x".to_vec(),
+            2 => b"99999999999999999999999".to_vec(),
+            3 => b"-x".to_vec(),
+            4 => b"-".to_vec(),
+            5 => vec![],
+            _ => rng.pick(&[&b"}"[..], b"{", b"\xff", b"0x", b"--1", b"1.5"]).to_vec(),
+        }),
+        _ => None,
+    };
+    let tail: Vec<u8> = rng.pick(&[&b""[..], b"\n", b" 0\n", b" 1 0\n"]).to_vec();
+    let mut d = Sd {
+        sb: Sb::new(), fmt, hdr: "H:-".into(), items: vec![], bad, skip: if mode == E2 { rng.range(1, 3) as usize } else { 0 }, tail,
+        armed: false, tok: None, dead: false, scaled: (0, 0),
+        eol: if rng.chance(1, 5) { b"\r\n" } else { b"\n" },
+    };
+    let unit_of = |rng: &mut Rng, units: &[&'static [u8]]| -> &'static [u8] { if plain_units { units[0] } else { *rng.pick(units) } };
+    let ws = unit_of(rng, WS_UNITS);
+    // header fields for a document of `nc` clauses whose literals are bounded by `maxlit`
+    let hdr_fields = |rng: &mut Rng, cfg: bool, nc: usize, maxlit: i64| -> Vec<u64> {
+        let vars = match rng.below(4) { 0 => 0, 1 => tmax as u64, 2 => maxlit as u64, _ => (maxlit as u64 + rng.below(5)).min(tmax as u64) };
+        let vars = if cfg && rng.chance(1, 2) { rng.range(0, tmax as u64) } else { vars };
+        let count = if cfg { *rng.pick(&[0, nc as u64, u64::MAX, u64::MAX - 1, 1 << 32, (1 << 63) - 1, nc as u64 + 1, 1]) } else if rng.chance(1, 3) { 0 } else { nc as u64 };
+        let mut f = vec![vars, count];
+        match fmt {
+            "wcnf" => f.push(*rng.pick(&[0, 1, u64::MAX, 1 << 63, 9])),
+            "gcnf" => f.push(if cfg { *rng.pick(&[0, 1, 2, u64::MAX]) } else { *rng.pick(&[0, 2, 5, u64::MAX, u64::MAX - 1]) }),
+            _ => {}
+        }
+        f
+    };
+    let tag: u64 = match fmt { "wcnf" => *rng.pick(&[7, 0, u64::MAX, 1 << 63]), "gcnf" => *rng.pick(&[2, 0, 1]), _ => 0 };
+    let with_hdr = rng.chance(2, 3);
+    let mut big = false;
+
+    match name {
+        "lines-open" | "lines-tag" | "lines-pre" | "lines-mid" | "lines-end" | "clines-top" | "clines-open" | "cmt-long" => {
+            let pos = match name {
+                "lines-pre" => 0, "lines-mid" => 1 + rng.below(2) as usize, "lines-open" | "clines-open" => 3, "lines-tag" => 4, "lines-end" => 5,
+                "clines-top" => *rng.pick(&[0usize, 1, 2, 5]),
+                _ => if fmt == "cnf" { *rng.pick(&[0usize, 1, 2, 3, 5]) } else { rng.below(6) as usize },
+            };
+            let pos = if pos == 4 && fmt == "cnf" { 3 } else { pos };
+            let unit: &[u8] = if name.starts_with("clines") { unit_of(rng, CLINE_UNITS) } else { unit_of(rng, LINE_UNITS) };
+            let fill = unit_of(rng, FILL_UNITS);
+            let long_comment = name == "cmt-long";
+            let unterminated = long_comment && pos == 5 && rng.chance(1, 2);
+            let run = |d: &mut Sd| {
+                if long_comment {
+                    d.lit(b"c");
+                    d.srep(n, fill);
+                    if !unterminated { d.lit(b"\n"); }
+                } else {
+                    d.srep(n, unit);
+                }
+            };
+            let nc = 3;
+            let h = hdr_fields(rng, cfg, nc, 3);
+            let indent = rng.chance(1, 4);
+            if pos == 0 { run(&mut d); }
+            if with_hdr || pos == 1 { d.header(&h, None); }
+            if pos == 1 { run(&mut d); }
+            // first clause
+            match pos {
+                3 => {
+                    if let Some(t) = d.tag_tok(tag) { d.tok(&t); d.lit(b" "); }
+                    d.tok(b"1"); d.lit(b" "); d.tok(b"-2"); d.nl();
+                    run(&mut d);
+                    if indent { d.lit(b" \t"); }
+                    d.tok(b"3"); d.lit(b" "); d.tok(b"0"); d.nl();
+                    let it = d.clause_item(tag, &[1, -2, 3]); d.item(it);
+                }
+                4 => {
+                    let t = d.tag_tok(tag).unwrap();
+                    d.tok(&t); d.nl();
+                    run(&mut d);
+                    if indent { d.lit(b"  "); }
+                    d.tok(b"1"); d.lit(b" "); d.tok(b"-2"); d.lit(b" "); d.tok(b"0"); d.nl();
+                    let it = d.clause_item(tag, &[1, -2]); d.item(it);
+                }
+                _ => d.clause(tag, &[1, -2], None),
+            }
+            if pos == 2 { run(&mut d); if indent { d.lit(b"\t"); } }
+            d.clause(tag, &[3], None);
+            d.clause(1, &[], None);
+            if pos == 5 { run(&mut d); if indent && !unterminated { d.lit(b" "); } d.tok(b""); }
+        }
+        "ws-lead" | "ws-hdr" | "ws-lits" | "ws-trail" => {
+            let h = hdr_fields(rng, cfg, 2, 3);
+            let nf = h.len() + 2;
+            let sub = match name {
+                "ws-lead" => rng.below(4),
+                "ws-hdr" => 4 + rng.below(4),
+                "ws-lits" => if fmt == "cnf" { *rng.pick(&[8u64, 10]) } else { 8 + rng.below(3) },
+                _ => 11 + rng.below(4),
+            };
+            // header (with its gap where the scaled run is inside it)
+            match sub {
+                0 => { d.srep(n, ws); d.header(&h, None); }
+                2 => { d.srep(n, ws); d.tok(b""); d.nl(); d.header(&h, None); }
+                4 => d.header(&h, Some((0, n, ws))),
+                5 => d.header(&h, Some((1, n, ws))),
+                6 => d.header(&h, Some((2 + rng.below(nf as u64 - 3) as usize, n, ws))),
+                7 => d.header(&h, Some((nf - 1, n, ws))),
+                _ => { if with_hdr { d.header(&h, None); } }
+            }
+            let ntok = d.clause_toks(tag, &[1, -2, 3]).len();
+            match sub {
+                1 => { d.srep(n, ws); d.clause(tag, &[1, -2, 3], None); }
+                3 | 14 => {
+                    if let Some(t) = d.tag_tok(tag) { d.tok(&t); d.lit(b" "); }
+                    d.tok(b"1"); d.lit(b" "); d.tok(b"-2");
+                    if sub == 14 { d.srep(n, ws); d.tok(b""); }
+                    d.nl();
+                    if sub == 3 { d.srep(n, ws); }
+                    d.tok(b"3"); d.lit(b" "); d.tok(b"0"); d.nl();
+                    let it = d.clause_item(tag, &[1, -2, 3]); d.item(it);
+                }
+                8 => { let g = ntok - 4 + rng.below(2) as usize; d.clause(tag, &[1, -2, 3], Some((g, n, ws))); }
+                9 => d.clause(tag, &[1, -2, 3], Some((0, n, ws))),
+                10 => d.clause(tag, &[1, -2, 3], Some((ntok - 2, n, ws))),
+                11 => d.clause(tag, &[1, -2, 3], Some((ntok - 1, n, ws))),
+                _ => d.clause(tag, &[1, -2, 3], None),
+            }
+            match sub {
+                12 => {
+                    // last clause without line end, blanks up to the end of the input
+                    let toks = d.clause_toks(tag, &[-3]);
+                    for (i, t) in toks.iter().enumerate() { d.tok(t); if i + 1 < toks.len() { d.lit(b" "); } }
+                    d.srep(n, ws); d.tok(b"");
+                    let it = d.clause_item(tag, &[-3]); d.item(it);
+                }
+                13 => { d.clause(tag, &[-3], None); d.srep(n, ws); d.tok(b""); }
+                _ => d.clause(tag, &[-3], None),
+            }
+        }
+        "wide" | "wide-lines" | "many" | "stride" => {
+            let lines = name == "wide-lines";
+            let sep: &[u8] = if lines { if d.eol.len() == 2 && rng.chance(1, 2) { b"\r\n" } else { b"\n" } } else { ws };
+            big = n > dim.thr(thorough);
+            match name {
+                "wide" | "wide-lines" => {
+                    let kind = if distinct { rng.below(2) } else if plain_units { 2 } else { 2 + rng.below(3) };
+                    let maxlit = if distinct { n as i64 } else { 12 };
+                    let h = hdr_fields(rng, cfg, 2, maxlit);
+                    if with_hdr { d.header(&h, None); }
+                    if let Some(t) = d.tag_tok(tag) { d.tok(&t); d.lit(b" "); }
+                    let mut lits = String::new();
+                    let push = |lits: &mut String, s: &str| { if !lits.is_empty() { lits.push(','); } lits.push_str(s); };
+                    match kind {
+                        0 => { d.snums(n, 1, 1, b"", sep); for i in 1..=n { push(&mut lits, &i.to_string()); } }
+                        1 => { d.snums(n, 1, 1, b"-", sep); for i in 1..=n { push(&mut lits, &format!("-{}", i)); } }
+                        2 => { let u = [b"1", sep].concat(); d.srep(n, &u); for _ in 0..n { push(&mut lits, "1"); } }
+                        3 => { let u = [b"-1", sep].concat(); d.srep(n, &u); for _ in 0..n { push(&mut lits, "-1"); } }
+                        _ => { let u = [b"12", sep, b"-7", sep].concat(); d.srep(n.div_ceil(2), &u); for _ in 0..n.div_ceil(2) { push(&mut lits, "12"); push(&mut lits, "-7"); } }
+                    }
+                    d.tok(b"0"); d.nl();
+                    d.item(format!("C:{}:{}", d.tag_val(tag), lits));
+                    d.clause(tag, &[-1, 1], None);
+                }
+                "many" => {
+                    let kind = if distinct { 0 } else if plain_units { 1 } else { 1 + rng.below(3) };
+                    let maxlit = if distinct { n as i64 } else { 3 };
+                    let h = hdr_fields(rng, cfg, n + 1, maxlit);
+                    if with_hdr { d.header(&h, None); }
+                    let pre: Vec<u8> = match d.tag_tok(tag) { Some(mut t) => { t.push(b' '); t } None => vec![] };
+                    let tv = d.tag_val(tag);
+                    let suf = [&b" 0"[..], d.eol].concat();
+                    match kind {
+                        0 => { d.snums(n, 1, 1, &pre, &suf); if !d.dead { d.items.extend((1..=n).map(|i| format!("C:{}:{}", tv, i))); } }
+                        1 => { let u = [&pre[..], b"-1 0", d.eol].concat(); d.srep(n, &u); if !d.dead { d.items.extend((0..n).map(|_| format!("C:{}:-1", tv))); } }
+                        2 => { let u = [&pre[..], b"0", d.eol].concat(); d.srep(n, &u); if !d.dead { d.items.extend((0..n).map(|_| format!("C:{}:-", tv))); } }
+                        _ => { let u = [&pre[..], b"-3", d.eol, b"c", d.eol, b" 2 0 ", d.eol].concat(); d.srep(n, &u); if !d.dead { d.items.extend((0..n).map(|_| format!("C:{}:-3,2", tv))); } }
+                    }
+                    d.clause(tag, &[-1, 1], None);
+                    d.tok(b"");
+                }
+                _ => {
+                    // clause starts at a fixed stride of `n` bytes
+                    let h = hdr_fields(rng, cfg, 0, 3);
+                    let toks = d.clause_toks(tag, &[1, -2, 3]);
+                    let body: Vec<u8> = toks.join(&b" "[..]);
+                    let l = n.max(body.len() + 4);
+                    let unit: Vec<u8> = match rng.below(3) {
+                        0 => [&body[..], &vec![b' '; l - body.len() - 1], b"\n"].concat(),
+                        1 => [&body[..], b"\nc", &vec![b'x'; l - body.len() - 3], b"\n"].concat(),
+                        _ => [&vec![b' '; l - body.len() - 1][..], &body, b"\n"].concat(),
+                    };
+                    let m = ((1usize << if thorough { 20 } else { 18 }) / l).clamp(3, 128);
+                    let mut h = h; h[1] = if cfg || rng.chance(1, 2) { 0 } else { m as u64 + 1 };
+                    if with_hdr { d.header(&h, None); }
+                    d.srep(m, &unit);
+                    let it = d.clause_item(tag, &[1, -2, 3]);
+                    if !d.dead { d.items.extend((0..m).map(|_| it.clone())); }
+                    d.clause(tag, &[-3], None);
+                }
+            }
+        }
+        "zeros" | "digits-bad" => {
+            // a numeral with a long digit run in one of the numeric fields
+            let isbad = name == "digits-bad";
+            let h = hdr_fields(rng, cfg, 2, 3);
+            let nh = h.len();
+            let place = match rng.below(if fmt == "cnf" { 6 } else { 7 }) { 0 => 0, 1 => 1 + rng.below(nh as u64) as usize, 2 => 4, 3 => 5, 4 => 6, 5 => 7, _ => 8 };
+            // 0: no header, first literal; 1..=3: header field; 4: first literal; 5: middle literal (negative); 6: last literal; 7: terminator; 8: tag
+            let run = |d: &mut Sd, rng: &mut Rng, neg: bool, digits: &[u8], open: &[u8], close: &[u8]| {
+                let sign: &[u8] = if neg { b"-" } else { b"" };
+                if isbad {
+                    match rng.below(3) {
+                        0 => d.bad_run(&[open, sign].concat(), n, b"9", close),
+                        1 => d.bad_run(&[open, sign, b"1"].concat(), n, b"0", close),
+                        _ => d.bad_run(&[open, sign].concat(), n.div_ceil(2), b"10", &[digits, close].concat()),
+                    }
+                } else {
+                    d.lit(&[open, sign].concat());
+                    d.srep(n, b"0");
+                    d.lit(&[digits, close].concat());
+                }
+            };
+            if place >= 1 && place <= 3 {
+                let mut toks: Vec<Vec<u8>> = vec![b"p".to_vec(), fmt.as_bytes().to_vec()];
+                toks.extend(h.iter().map(|f| f.to_string().into_bytes()));
+                for (i, t) in toks.iter().enumerate() {
+                    if i == place + 1 { run(&mut d, rng, false, t, b"", b""); } else { d.tok(t); }
+                    if i + 1 < toks.len() { d.lit(b" "); }
+                }
+                d.nl();
+                if !d.dead { d.hdr = format!("H:{}", h.iter().map(|f| f.to_string()).collect::<Vec<_>>().join(":")); }
+            } else if place != 0 && with_hdr {
+                d.header(&h, None);
+            }
+            let lits = [1i64, -2, 3];
+            let toks = d.clause_toks(tag, &lits);
+            let t0 = toks.len() - 4; // index of the first literal
+            let target = match place { 0 | 4 => Some(t0), 5 => Some(t0 + 1), 6 => Some(t0 + 2), 7 => Some(t0 + 3), 8 => Some(0), _ => None };
+            for (i, t) in toks.iter().enumerate() {
+                if Some(i) == target {
+                    if place == 8 && fmt == "gcnf" {
+                        run(&mut d, rng, false, &t[1..t.len() - 1], b"{", b"}");
+                    } else if t[0] == b'-' {
+                        run(&mut d, rng, true, &t[1..], b"", b"");
+                    } else if place == 7 {
+                        let neg = rng.chance(1, 3);
+                        run(&mut d, rng, neg, b"", b"", b"");
+                    } else {
+                        run(&mut d, rng, false, t, b"", b"");
+                    }
+                } else {
+                    d.tok(t);
+                }
+                if i + 1 < toks.len() { d.lit(b" "); }
+            }
+            d.nl();
+            let it = d.clause_item(tag, &lits); d.item(it);
+            d.clause(tag, &[-3], None);
+        }
+        _ => {
+            // ---- solver log
+            let pos = rng.below(4) as usize; // 0 start, 1 between status and values, 2 between value lines, 3 end
+            let pos = if matches!(mode, E1 | E2) && pos == 3 { 2 } else { pos };
+            let status = rng.below(4);
+            let status_first = rng.chance(1, 2) || status == 0;
+            let sline: &[u8] = match status { 1 => b"s SATISFIABLE", 2 => b"s UNSATISFIABLE", 3 => b"s UNKNOWN", _ => b"" };
+            let cunit: &[u8] = unit_of(rng, &[b"c \n", b"c x\n", b"c \r\n", b"c  c\n", b"c v 1 0\n"]);
+            let sunit: &[u8] = unit_of(rng, &[b"\n", b"x\n", b"c\n", b"vv 1\n", b"\r\n", b"s\n", b" v 1 0\n"]);
+            let fill = unit_of(rng, FILL_UNITS);
+            if name == "log-skip-lines" || name == "log-skip-long" { cfg = true; }
+            big = n > dim.thr(thorough);
+            let mut lits = String::new();
+            let push = |lits: &mut String, s: &str| { if !lits.is_empty() { lits.push(','); } lits.push_str(s); };
+            let run = |d: &mut Sd| match name {
+                "log-clines" => d.srep(n, cunit),
+                "log-cmt-long" => { d.lit(b"c "); d.srep(n, fill); d.lit(b"\n"); }
+                "log-skip-lines" => d.srep(n, sunit),
+                "log-skip-long" => { d.lit(b"x"); d.srep(n, fill); d.lit(b"\n"); }
+                _ => {}
+            };
+            if pos == 0 { run(&mut d); }
+            if status_first && status != 0 { d.lit(sline); d.nl(); }
+            if pos == 1 { run(&mut d); }
+            d.lit(b"v ");
+            match name {
+                "log-ws" if rng.chance(1, 3) => { d.srep(n, ws); d.tok(b"1"); }
+                "log-zeros" if rng.chance(1, 2) => {
+                    if rng.chance(1, 3) { d.bad_run(b"", n, b"9", b""); } else { d.srep(n, b"0"); d.lit(b"1"); }
+                }
+                _ => d.tok(b"1"),
+            }
+            push(&mut lits, "1");
+            d.lit(b" ");
+            match name {
+                "log-wide" => {
+                    if distinct { d.snums(n, 2, 1, b"", ws); for i in 0..n { push(&mut lits, &(i + 2).to_string()); } }
+                    else { let u = [b"-1", ws].concat(); d.srep(n, &u); for _ in 0..n { push(&mut lits, "-1"); } }
+                }
+                "log-vlines" => {
+                    d.nl();
+                    if distinct { d.snums(n, 2, 1, b"v ", b"\n"); for i in 0..n { push(&mut lits, &(i + 2).to_string()); } }
+                    else if plain_units { d.srep(n, b"v 1\n"); for _ in 0..n { push(&mut lits, "1"); } }
+                    else { d.srep(n, b"v 1 -1\n"); for _ in 0..n { push(&mut lits, "1"); push(&mut lits, "-1"); } }
+                    d.lit(b"v ");
+                }
+                "log-ws" if !d.armed && rng.chance(1, 2) => { d.srep(n, ws); }
+                _ => {}
+            }
+            d.tok(b"-2"); push(&mut lits, "-2");
+            if pos == 2 { d.nl(); run(&mut d); d.lit(b"v "); } else { d.lit(b" "); }
+            if name == "log-zeros" && !d.armed {
+                let neg = rng.chance(1, 2);
+                if neg { d.lit(b"-"); }
+                d.srep(n, b"0"); d.lit(b"3");
+                push(&mut lits, if neg { "-3" } else { "3" });
+            } else {
+                d.tok(b"3"); push(&mut lits, "3");
+            }
+            d.lit(b" ");
+            d.tok(b"0");
+            if name == "log-ws" && !d.armed { d.srep(n, ws); d.tok(b""); }
+            d.nl();
+            if !status_first { d.lit(sline); d.nl(); }
+            if pos == 3 { run(&mut d); }
+            if !d.dead {
+                d.items = vec![format!("S:{}", match status { 1 => "sat", 2 => "unsat", _ => "none" }), format!("A:{}", lits)];
+            }
+        }
+    }
+
+    // ---- the case line
+    let injected = d.tok.is_some();
+    let len = d.sb.off;
+    let (s0, s1) = d.scaled;
+    let mut line = format!("cnf fmt={} ty={} cfg={}", fmt, ty, cfg as u8);
+    let k = if mode == F {
+        let cands: Vec<usize> = [s0, s0 + 1, (s0 + s1) / 2, s1.saturating_sub(1), s1, s1 + 1, len.saturating_sub(1), len, s0 + rng.below((s1 - s0).max(1) as u64) as usize]
+            .iter().copied().filter(|&k| k <= len && (!plain_units || k + 1 >= s1)).collect();
+        Some(*rng.pick(&cands))
+    } else {
+        None
+    };
+    line.push_str(&format!(" k={}", match k { Some(k) => k.to_string(), None => "-".into() }));
+    line.push_str(&format!(" ls={}", (mode == Ls) as u8));
+    line.push_str(&format!(" d={}", d.sb.spec()));
+    if !injected && !is_err_doc(&d) && k.is_none() && mode != Ls {
+        let hdr_item = if is_log { vec![] } else { vec![d.hdr.clone()] };
+        let items: Vec<String> = hdr_item.into_iter().chain(d.items.iter().cloned()).collect();
+        line.push_str(&format!(" x={}", crate::eng_cnf::obs_text(&items, "END")));
+    }
+    if let Some((l, c, t)) = d.tok {
+        line.push_str(&format!(" t={}:{}:{}", l, c, t));
+    }
+    if big { line.push_str(" big=1"); }
+    if big && n > (1 << 19) { line.push_str(" ns=2"); }
+    line.push_str(&format!(" dim={} n={}", name, n));
+    line
+}
+
+fn is_err_doc(d: &Sd) -> bool { d.dead }
